@@ -2179,6 +2179,7 @@ L101:
     int_t isp, jsp, low;
     double dmin__, dnew;
     int_t jord, qlen, jdum;
+    int_t *qsave; /* copy of the pending list Q(1:Q0), see "Initialize heap" */
     double rinf;
     extern /* Subroutine */ int_t
 	mc64dd_(int_t *, int_t *, int_t *, double *, int_t *, int_t *),
@@ -2372,6 +2373,7 @@ L95:
 	goto L1000;
     }
 /* Prepare for main loop */
+    if ( !(qsave = intMalloc(*n + 1)) ) ABORT("Malloc fails for qsave[] in mc64wd_");
     i__1 = *n;
     for (i__ = 1; i__ <= i__1; ++i__) {
 	d__[i__] = rinf;
@@ -2421,11 +2423,18 @@ L115:
 	    ;
 	}
 /* Initialize heap Q and Q2 with rows held in Q(1:QLEN) */
+/* The pending list Q(1:Q0) is read in this loop while members of Q2 are */
+/* written to Q(LOW) from the top of the same array; when several rows tie */
+/* at DMIN, Q(LOW) could overwrite list entries not yet read (Q0 + size of */
+/* Q2 > N), dropping rows from the search.  Read the list from a copy. */
 	q0 = qlen;
 	qlen = 0;
+	for (kk = 1; kk <= q0; ++kk) {
+	    qsave[kk] = q[kk];
+	}
 	i__2 = q0;
 	for (kk = 1; kk <= i__2; ++kk) {
-	    k = q[kk];
+	    k = qsave[kk];
 	    i__ = irn[k];
 	    if (csp <= d__[i__]) {
 		d__[i__] = rinf;
@@ -2589,6 +2598,7 @@ L100:
 	;
     }
 /* End of main loop */
+    SUPERLU_FREE(qsave);
 /* Set dual column variable in D(1:N) */
 L1000:
     i__1 = *n;
